@@ -488,7 +488,7 @@ def linearize_segment_contents(part, start, end, state):
 
     other_e = harmony_e + attributes_e + directions_e + barline_e + prints_e
 
-    contents = merge_measure_contents(voices_e, other_e, start.t)
+    contents = merge_measure_contents(voices_e, other_e, start.t, end.t)
 
     return contents
 
@@ -655,7 +655,7 @@ def merge_with_voice(notes, other, measure_start):
     return result, fb_cost
 
 
-def merge_measure_contents(notes, other, measure_start):
+def merge_measure_contents(notes, other, measure_start, measure_end=None):
     merged = {}
     # cost (measured as the total forward/backup jumps needed to merge) all
     # elements in `other` into each voice
@@ -711,6 +711,15 @@ def merge_measure_contents(notes, other, measure_start):
         # update current position
         if elements:
             pos = elements[-1][0] + (elements[-1][1] or 0)
+
+    # move to the end of the segment: whatever follows (the next segment
+    # of this measure or the next measure) starts there, also when the
+    # last voice written ends earlier
+    if measure_end is not None and pos < measure_end:
+        e = etree.Element("forward")
+        ee = etree.SubElement(e, "duration")
+        ee.text = "{:d}".format(int(measure_end - pos))
+        result.append(e)
 
     return result
 
